@@ -197,6 +197,24 @@ def non_contributors(prog, chk):
             nones = [p for p in hirq.exprs(then, "Path") if (p.get("res") or {}).get("path", "").split("::")[-1] == "None"]
             if nones:
                 found |= lits
+        is_none = lambda n: [p for p in hirq.exprs(n, "Path") if (p.get("res") or {}).get("path", "").split("::")[-1] == "None"]
+        # the same exclusion written as a match arm (`"symbol" => None`) ...
+        for _m, arms in hirq.str_matches(h):
+            for ls, a in arms:
+                if is_none(a["body"]):
+                    found |= set(ls)
+        # ... or as a filter over the box (`bbox.filter(|_| name != "defs" && name != "symbol")`)
+        for mc in hirq.method_calls(h["body"], "filter"):
+            for cl in hirq.exprs(mc, "Closure"):
+                nes = [x for x in hirq.exprs(cl, "Binary") if x["op"] == "Ne"]
+                eqs = [x for x in hirq.exprs(cl, "Binary") if x["op"] == "Eq"]
+                if nes and not eqs:
+                    found |= {hirq.lit_str(x) for e in nes for x in hirq.exprs(e, "Lit")} - {None}
+        if not names <= found:
+            present = {hirq.lit_str(x) for x in hirq.exprs(h["body"], "Lit")} - {None}
+            if names - found <= present:
+                chk.undecided("A15.non-contributors", f"{ty}:{'/'.join(sorted(names))}", b.where(), f"{ty}: the names {sorted(names - found)} are still tested but the exclusion is written in a form this rule does not read")
+                continue
         chk.ob(names <= found, "A15.non-contributors", f"{ty}:{'/'.join(sorted(names))}", b.where(), f"{'/'.join(sorted(names))} elements contribute no bounding box (reset to None)", f"{ty}: elements named {sorted(names - found)} are no longer excluded from the extent")
     # generated text is not consulted: OtherElement's bbox comes from get_element_bbox only
     oe = prog.body("<svgdx::transform::OtherElement as svgdx::transform::EventGen>::generate_events")
